@@ -1321,7 +1321,7 @@ def op_twin(req):
         out["hashable"] = True
         if vx != vy:
             out["hash_eq"] = False
-            out["where"] = locate_hash_differs(x, y)
+            out["where"] = _tname(x)     # (the two spellings may order their parts differently: no parallel walk)
             break
         if {y: 1}.get(x) != 1:
             out["lookup"] = False
@@ -1485,6 +1485,12 @@ def op_import(req):
             # Many classes print representations that need names the repository's own test globals do
             # not provide; that is not held against them.  It is a finding only if the representation
             # of a freshly built equal value *does* evaluate here (then the shipped text is at fault).
+            if isinstance(e, AttributeError) and str(e).startswith("module 'cirq"):
+                # the representation names something a Cirq package does not have (cirq_google.ZipLongest):
+                # no choice of evaluation globals can help that
+                rec = _failure_record("import:repr", e)
+                rec["subject"] = _tname(fresh)
+                raise SutFailure(rec) from None
             try:
                 eval(repr(fresh), dict(EVAL_GLOBALS), {})
             except Exception:  # noqa: BLE001
